@@ -204,9 +204,15 @@ func c12Spec() *histSpec {
 		add("D#1 = v", nil, es(zn.Assign{Target: zn.Index{Root: D, Idx: c12Num(1)}, Val: v}))
 		add("D#10000000000000000000 = v", nil, es(zn.Assign{Target: zn.Index{Root: D, Idx: zn.Num{Lit: "10000000000000000000"}}, Val: v}))
 		add("D#20000000000000000000 = v + 5", nil, es(zn.Assign{Target: zn.Index{Root: D, Idx: zn.Num{Lit: "20000000000000000000"}}, Val: zn.Bin{Op: "+", L: v, R: c12Num(5)}}))
+		// a fourth and a fifth key (the copy below gets new keys of its own as well: a copy made while
+		// the key list has spare room must not share that room with the original)
+		add("D#“丁” = v", nil, es(zn.Assign{Target: zn.Index{Root: D, Idx: c12Str("丁")}, Val: v}))
 		if !has("E") {
 			add("令E = D", []string{"E"}, decl("E", D))
 		} else {
+			add("E#“戊” = v", nil, es(zn.Assign{Target: zn.Index{Root: zn.Var{Name: "E"}, Idx: c12Str("戊")}, Val: v}))
+			add("以E（写入：“丁”、v + 6）", nil, show(mcall(zn.Var{Name: "E"}, "写入", c12Str("丁"), zn.Bin{Op: "+", L: v, R: c12Num(6)})))
+			add("D#“戊” = v + 7", nil, es(zn.Assign{Target: zn.Index{Root: D, Idx: c12Str("戊")}, Val: zn.Bin{Op: "+", L: v, R: c12Num(7)}}))
 			add("E = D", nil, es(zn.Assign{Target: zn.Var{Name: "E"}, Val: D}))
 			add("D = E", nil, es(zn.Assign{Target: D, Val: zn.Var{Name: "E"}}))
 			add("以E（移除：“乙”）", nil, show(mcall(zn.Var{Name: "E"}, "移除", c12Str("乙"))))
@@ -222,7 +228,7 @@ func init() {
 	mc.Register(&mc.Check{
 		ID:    "C12",
 		Level: "model_checking",
-		Rule:  "E2: breadth-first search over operation histories on a list L and a dictionary D (plus one copy of each) from 3 initial states (non-empty, empty, literal with duplicate keys); list operations: guarded write at positions {0,1,2,len,len+1} and at the fractional positions 0.5 and 1.5, 前增 后增 左移 右移 交换 (in and out of range) 合并 (also with the receiver itself among the arguments), setters 首项 末项, copies; dictionary operations over keys 乙 甲 丙 (deliberately unsorted): #k write, 写入 移除 读取, numeric key, two whole-number keys beyond 2^63, copies; a two-name loop over L that appends its position variable to the copy M; values cycle through 0..2 so the space closes under the history bound. Every history of >= 3 operations is also run with the battery only at its end (an observation may itself refresh hidden state). After EVERY operation the full observation battery runs on the real interpreter (fresh run of the whole history) and the reference (slice / key list + map): structural value, display text, length, 首项 末项 逆序 逆序∘逆序 包含 寻找 (first position of 0, 1, 2 relative to the answer for an absent value), guarded reads at 0,1,2,len,len+1 and at 0.5, 1.5, -0.5 (out of range => error and unchanged), iteration order with indices, 所有索引 所有值, keyed reads of present and absent keys, generated JSON (of the dictionary itself and of it as an item of a list, of a list in a list and under a key).",
+		Rule:  "E2: breadth-first search over operation histories on a list L and a dictionary D (plus one copy of each) from 3 initial states (non-empty, empty, literal with duplicate keys); list operations: guarded write at positions {0,1,2,len,len+1} and at the fractional positions 0.5 and 1.5, 前增 后增 左移 右移 交换 (in and out of range) 合并 (also with the receiver itself among the arguments), setters 首项 末项, copies; dictionary operations over keys 乙 甲 丙 (deliberately unsorted) and 丁 戊: #k write, 写入 移除 读取, new keys written to the original and to its copy, numeric key, two whole-number keys beyond 2^63, copies; a two-name loop over L that appends its position variable to the copy M; values cycle through 0..2 so the space closes under the history bound. Every history of >= 3 operations is also run with the battery only at its end (an observation may itself refresh hidden state). After EVERY operation the full observation battery runs on the real interpreter (fresh run of the whole history) and the reference (slice / key list + map): structural value, display text, length, 首项 末项 逆序 逆序∘逆序 包含 寻找 (first position of 0, 1, 2 relative to the answer for an absent value), guarded reads at 0,1,2,len,len+1 and at 0.5, 1.5, -0.5 (out of range => error and unchanged), iteration order with indices, 所有索引 所有值, keyed reads of present and absent keys, generated JSON (of the dictionary itself and of it as an item of a list, of a list in a list and under a key).",
 		Assumptions: []string{
 			"the numbering of 寻找 is not fixed (only the distance between the answer for a stored value and the answer for an absent one, which is the 1-based first position under either convention); the index convention of 新增 is not asserted",
 			"JSON text of the reference uses Go's shortest float formatting and member order = stored key order",
